@@ -868,6 +868,15 @@ Extra:\n{self.extra_map}
                 # BIP67 sort order
                 bip32_derivs = sorted(bip32_derivs, key=lambda k: k["pubkey"])
 
+                # Change must have exactly one key from each cosigner
+                xfps_used = set(d["master_fingerprint"] for d in bip32_derivs)
+                if len(xfps_used) != len(bip32_derivs) or xfps_used != set(
+                    hdpubkey_map.keys()
+                ):
+                    raise SuspiciousTransaction(
+                        f"Output #{cnt} does not have exactly one key from each cosigner: {bip32_derivs}"
+                    )
+
                 # Confirm there aren't >1 change ouputs
                 # (this is technically allowed but too sketchy to support)
                 if change_sats or change_addr:
